@@ -77,6 +77,38 @@ def template_class(A, B):
 
 
 KF_RELAY = "explicit-h-relay-atom"
+KF_ROUND = "glue-rounds-increment-on-fractional-bond"
+KF_EXPAND = "explicit-expansion-leaves-product-hcount"
+
+
+def classify_change_graph_miss(its, GA, GB, cg, tcg):
+    """attribute a change-graph mismatch to one of two recorded mechanisms (else None):
+    KF_ROUND  - a rule-formed bond landed on an existing substrate bond of non-integral order (aromatic); the glue
+                rounds `host order + increment`, so the bond changes by a fractional amount although the template's
+                increments are all integral;
+    KF_EXPAND - an atom whose hydrogens were expanded into nodes for the explicit re-match but which is not changed by
+                the rule keeps its old product-side hydrogen count: it appears as an isolated extra node (X, +k) of the
+                change graph, with exactly k unchanged explicit hydrogen neighbours."""
+    import networkx as nx
+    if all(float(d["d"]).is_integer() for _, _, d in tcg.edges(data=True)):
+        for u, v, d in cg.edges(data=True):
+            a = GA[1].get(frozenset((u, v)), 0)
+            if not float(d["d"]).is_integer() and not float(a).is_integer():
+                return KF_ROUND
+    extra = []
+    for n in list(cg.nodes):
+        if cg.degree(n) == 0 and cg.nodes[n]["lab"][0] != "H":
+            k = cg.nodes[n]["lab"][1]
+            hn = [m for m in its[n] if its.nodes[m].get("element") == "H" and tuple(its[n][m]["order"])[0] == tuple(its[n][m]["order"])[1] != 0]
+            t0, t1 = its.nodes[n]["typesGH"]
+            if k > 0 and len(hn) >= k and t1[2] - t0[2] == k and t0[:2] == t1[:2] and t0[3] == t1[3]:
+                extra.append(n)
+    if extra:
+        h = cg.copy()
+        h.remove_nodes_from(extra)
+        if R.cg_iso(h, tcg):
+            return KF_EXPAND
+    return None
 
 
 def has_relay_atom(A, B):
@@ -132,7 +164,8 @@ def check_reactor(rx, its_list=None, smarts=None):
             ST["cg"] = ST.get("cg", 0) + 1
             cg = R.change_graph_from_sides(GA, GB)
             if not R.cg_iso(cg, tcg):
-                FAIL.append((_finding, "change-graph", {**wit, "result_index": k,
+                fnd = _finding or classify_change_graph_miss(g, GA, GB, cg, tcg)
+                FAIL.append((fnd, "change-graph", {**wit, "result_index": k,
                                               "result_changes": sorted((sorted(e), d["d"]) for *e, d in cg.edges(data=True))[:8],
                                               "template_changes": sorted((sorted(e), d["d"]) for *e, d in tcg.edges(data=True))[:8]},
                              f"glued ITS #{k} does not differ from the substrate by exactly the template's changes"))
